@@ -234,18 +234,25 @@ PROPS['C15'] = {
 }
 
 PROPS['C05'] = {
-    'contracts': ['contracts.gate:Density2dArguments'],
+    'contracts': ['contracts.gate:Density2dArguments', 'contracts.gate:Density2d'],
     'bounded': True,
-    'level': 'other',
-    'explanation': 'BOUNDED for the gate itself. Proved only: other than two channels and fewer than two events are refused with '
-                   'ValueError before anything is computed (arrays and samples, symbolic sizes). The histogram / smoothing / cumulative cut / '
-                   'bin-to-event mapping of gate.density2d is built on object arrays of Python lists (np.frompyfunc), argsort/cumsum/nonzero '
-                   'and scikit-image contours, which the VC generator does not model; a proof of the cut on a hand model would be a different '
-                   'family. Every clause of C05 (bin atomicity, no out-of-grid event, at least ceil(f*n) kept and minimality, density order, '
-                   'order independence, monotonicity in f, replay with returned edges/mask, error cases) is decided by the bounded stand-in '
-                   'on the real function (domain in coverage.bounded).',
-    'level_note': 'bounded stand-in decides; only argument validation is proved.',
-    'technique': 'bounded check of the real function (stated bound) + contract-based proof of the argument validation paths',
+    'level': 'proof',
+    'timeout_ms': 20000,
+    'explanation': 'gate.density2d on explicit, strictly increasing per-axis edges (arrays and samples; all event sets, grid shapes, '
+                   'fractions, smoothing widths symbolic), proved of the real body: an event is kept iff it is inside the grid and the bin '
+                   'holding it under the documented rule (e[a] <= v < e[a+1], last edge closed) is in the bin mask -- so bins are kept or '
+                   'dropped whole, no out-of-grid event is kept, and re-gating with returned edges + mask reproduces the set (the re-gate '
+                   'path satisfies the same formula); the target n is ceil(f * #in-grid); the cumulative histogram count over the kept '
+                   'bins reaches n and falls below it without the least dense kept bin; the bin mask is exactly the densest end of the '
+                   'sorted order and no kept bin is less dense than a dropped one; ValueError iff f outside [0,1]; other than two channels '
+                   'or fewer than two events are refused. Library steps are assumed contracts (np.histogram2d counts incl. A-COUNT, '
+                   'np.digitize bracket, np.argsort permutation/sortedness, np.cumsum recurrence, gaussian_filter uninterpreted, '
+                   'find_contours abstracted away). BOUNDED only: bins given as counts or derived from a sample (hist_bins), '
+                   'order independence, monotonicity in f, f = 1 keeps all in-grid events, the contour output.',
+    'level_note': 'proof for explicit edges under the stated NumPy/SciPy contracts (A-LIB, A-COUNT, A-REAL); bounded stand-in for '
+                  'count / sample-derived bins and the relational clauses (order independence, monotonicity).',
+    'technique': 'contract-based deductive verification of the real density2d body (event mapping, target, cumulative cut, density '
+                 'order; scatter-loop template, library contracts) + bounded check of the real function for the remaining clauses',
 }
 PROPS['C14'] = {
     'contracts': ['contracts.fcsio:TextSegmentEarlyExits'],
